@@ -57,7 +57,8 @@ inductive Res
   | emptyPool     -- EmptyPoolError (block=True, pool_timeout elapsed)
   | failed        -- MaxRetryError: the scripted failure of the last attempt
   | fullPool      -- FullPoolError ("should never happen")
-  | internalErr   -- an AttributeError escaping from the pool code
+  | internalErr   -- an AttributeError escaping from the pool code (no step of the model produces it:
+                  -- `C02_close_race`; kept as the class the implementation's escaped exceptions map to)
   | wrongResp     -- completed, but with the response to somebody else's request
 deriving DecidableEq, Repr, Hashable, BEq
 
@@ -80,14 +81,13 @@ inductive Pc
   | recv (c : ConnId) (tag : Tag) (fails : Nat) (last : Outcome) (stream : Bool)  -- read the response / fail
   -- `_put_conn(item)`
   | putCheck (item : Option ConnId) (k : Cont)    -- `if self.pool is not None:`
-  | putLoad (item : Option ConnId) (k : Cont)     -- load `self.pool` for `.put(...)`
-  | putQ (item : Option ConnId) (k : Cont)        -- `<queue>.put(conn, block=False)`
+  | putLoad (item : Option ConnId) (k : Cont)     -- `pool = self.pool` (the load for `pool.put(...)`)
+  | putQ (item : Option ConnId) (k : Cont)        -- `pool.put(conn, block=False)`
   | fullClose (item : Option ConnId) (k : Cont)   -- `except queue.Full: if conn: conn.close()`; `if self.block: raise FullPoolError`
-  | warnLoad (item : Option ConnId) (k : Cont)    -- `log.warning(..., self.pool.qsize())`
+  | warn (item : Option ConnId) (k : Cont)        -- `log.warning(..., pool.qsize())` (`pool`: the local bound at `putLoad`)
   | discard (item : Option ConnId) (k : Cont)     -- trailing `if conn: conn.close()`
   -- `close`
-  | closeCheck                                    -- `if self.pool is None: return`
-  | closeSwap                                     -- `old_pool, self.pool = self.pool, None`
+  | closeSwap                                     -- `old_pool, self.pool = self.pool, None`; `if old_pool is None: return`
   | drain                                         -- `conn = pool.get(block=False)` / `except queue.Empty`
   | drainClose (x : Option ConnId)                -- `if conn: conn.close()`
 deriving DecidableEq, Repr, Hashable, BEq
@@ -155,8 +155,8 @@ def applyCont (th : Thread) : Cont â†’ Thread
   | .retry f l st => { th with pc := .getCheck f l st }
   | .rel => finish th .ok
 
-/-- `_put_conn` raised `r` (FullPoolError / AttributeError): the op ends with it; inside
-`release_conn` the statement `self._connection = None` is skipped -/
+/-- `_put_conn` raised `r` (FullPoolError): the op ends with it; inside `release_conn` the
+statement `self._connection = None` is skipped -/
 def failPut (th : Thread) (item : Option ConnId) (k : Cont) (r : Res) : Thread :=
   match k with
   | .rel => finish { th with resp := item } r
@@ -205,7 +205,7 @@ def tstepPc (cfg : Cfg) (tid : Nat) (sh : Shared) (th : Thread) : Pc â†’ Option 
     | some _ => some (sh, { th with pc := .putLoad item k })
   | .putLoad item k =>
     match sh.poolRef with
-    | none => some (sh, { th with pc := .discard item k })    -- `except AttributeError: pass`
+    | none => some (sh, { th with pc := .discard item k })    -- `None.put`: `except AttributeError: pass`
     | some _ => some (sh, { th with pc := .putQ item k })
   | .putQ item k =>
     if sh.queue.length < cfg.maxsize then
@@ -213,19 +213,15 @@ def tstepPc (cfg : Cfg) (tid : Nat) (sh : Shared) (th : Thread) : Pc â†’ Option 
     else some (sh, { th with pc := .fullClose item k })              -- queue.Full
   | .fullClose item k =>
     if cfg.block then some (closeConn sh item, failPut th item k .fullPool)
-    else some (closeConn sh item, { th with pc := .warnLoad item k })
-  | .warnLoad item k =>
-    match sh.poolRef with
-    | none => some (sh, failPut th item k .internalErr)  -- `None.qsize()`: AttributeError escapes
-    | some _ => some (sh, { th with pc := .discard item k })
+    else some (closeConn sh item, { th with pc := .warn item k })
+  | .warn item k =>
+    -- `pool.qsize()` on the queue object bound at `putLoad` (it raised `queue.Full`, so it is the
+    -- queue, whatever `self.pool` is by now): reads the queue, cannot fail
+    some (sh, { th with pc := .discard item k })
   | .discard item k => some (closeConn sh item, applyCont th k)
-  | .closeCheck =>
-    match sh.poolRef with
-    | none => some (sh, finish th .ok)
-    | some _ => some (sh, { th with pc := .closeSwap })
   | .closeSwap =>
     match sh.poolRef with
-    | none => some (sh, finish th .internalErr)   -- a second closer: `_close_pool_connections(None)`
+    | none => some (sh, finish th .ok)            -- already closed (or a concurrent closer swapped first)
     | some _ => some ({ sh with poolRef := none }, { th with pc := .drain })
   | .drain =>
     match sh.queue with
@@ -240,7 +236,7 @@ def tstep (cfg : Cfg) (tid : Nat) (sh : Shared) (th : Thread) : Option (Shared Ã
     match th.prog with
     | [] => none
     | .req f l st :: _ => tstepPc cfg tid sh th (.getCheck f l st)
-    | .close :: _ => tstepPc cfg tid sh th .closeCheck
+    | .close :: _ => tstepPc cfg tid sh th .closeSwap
     | .release :: _ =>
       match th.resp with
       | none => some (sh, finish th .ok)             -- `if not self._connection: return`
@@ -275,7 +271,7 @@ def Thread.pcConn (th : Thread) : Option ConnId :=
   match th.pc with
   | .send c .. => some c
   | .recv c .. => some c
-  | .putCheck i _ | .putLoad i _ | .putQ i _ | .fullClose i _ | .warnLoad i _ | .discard i _ => i
+  | .putCheck i _ | .putLoad i _ | .putQ i _ | .fullClose i _ | .warn i _ | .discard i _ => i
   | .drainClose x => x
   | _ => none
 
